@@ -188,7 +188,7 @@ func (f *c18Fee) FeeRate() chainfee.SatPerKWeight        { return f.rate }
 func (f *c18Fee) Increment() (bool, error)               { return false, ErrMaxPosition }
 func (f *c18Fee) IncreaseFeeRate(uint32) (bool, error)   { return false, nil }
 
-func c18PubConfig() {
+func c18PubConfig(ovf bool) {
 	// logging-only computations
 	vNoop("(*github.com/btcsuite/btcd/wire/v2.MsgTx).TxHash")
 	vNoop("github.com/lightningnetwork/lnd/sweep.inputTypeSummary")
@@ -198,8 +198,11 @@ func c18PubConfig() {
 	vNoop("(*github.com/lightningnetwork/lnd/lnutils.SyncMap[uint64, *github.com/lightningnetwork/lnd/sweep.monitorRecord]).Store[uint64 *github.com/lightningnetwork/lnd/sweep.monitorRecord]")
 	vNoop("github.com/lightningnetwork/lnd/labels.MakeLabel")
 	vReplace("github.com/lightningnetwork/lnd/lnwallet.DustLimitForSize", "github.com/lightningnetwork/lnd/sweep.c18DustLimit")
-	vOverflow("github.com/lightningnetwork/lnd/sweep.prepareSweepTx")
-	vOverflow("(github.com/lightningnetwork/lnd/lnwallet/chainfee.SatPerKWeight).FeeForWeight")
+	if ovf {
+		vOverflow("github.com/lightningnetwork/lnd/sweep.prepareSweepTx")
+		vOverflow("(github.com/lightningnetwork/lnd/lnwallet/chainfee.SatPerKWeight).FeeForWeight")
+		vOverflow("github.com/lightningnetwork/lnd/sweep.c18TxFee")
+	}
 	vAssumption("input and required-output values in [0, 21e6 BTC]; budget in [0, 21e6 BTC]; fee rates in [0, 2^40) sat/kw")
 	vAssumption("inputs are fakes of input.Input with real StandardWitnessTypes (weight from the real estimator); scripts are never executed; TxHash/NewTxSigHashes/inputTypeSummary/records-map Store are no-ops symbolically; lnwallet.DustLimitForSize replaced symbolically by its constants 294 (P2WPKH) / 330 (P2WSH), the real one runs in replay")
 }
@@ -264,8 +267,7 @@ func c18CheckTx(tag string, raw []*c18Input, tx *wire.MsgTx, budget btcutil.Amou
 // required-output values, arbitrary budget and any mempool verdict: whatever
 // it hands back as publishable pays at most the budget.
 func VerifC18Create() {
-	c18PubConfig()
-	vOverflow("github.com/lightningnetwork/lnd/sweep.c18TxFee")
+	c18PubConfig(true)
 	n := vChoice("n", 2) + 1
 	reqMask := vChoice("req", 1<<n)
 	ins, raw := c18Inputs(n, reqMask)
@@ -313,7 +315,7 @@ func VerifC18Create() {
 // (The rounding slack of NewSatPerKWeight against budget/weight is NOT claimed:
 // see NOTES.md "outside".)
 func VerifC18MaxRate() {
-	c18PubConfig()
+	c18PubConfig(false)
 	vMerge("github.com/btcsuite/btcd/btcutil/v2.round")
 	vOverflow("github.com/btcsuite/btcd/btcutil/v2.round")
 	n := vChoice("n", 3) + 1
@@ -377,9 +379,10 @@ func VerifC18PublishT() { c18Publish(c18PubMain, 2) }
 func VerifC18FindPublishAboveMax() { c18Publish(c18PubFinding, 0) }
 
 func c18Publish(region int, maxRejects int) {
-	c18PubConfig()
+	// integer overflow inside prepareSweepTx / FeeForWeight is an obligation in
+	// VerifC18Create (arbitrary rate); not repeated here
+	c18PubConfig(false)
 	c18FeeFnConfig()
-	vOverflow("github.com/lightningnetwork/lnd/sweep.c18TxFee")
 	reqMask := vChoice("req", 2)
 	ins, raw := c18Inputs(1, reqMask)
 	// The budget is one of a few concrete values here (it is symbolic in
